@@ -587,8 +587,10 @@ func ruleParenGuards(c *Ctx, t *tables) {
 	}
 	c.buildSSA()
 	writeRune := c.fn("(*ast.CodeWriter).WriteRune")
-	callLevel, hasCall := t.pt.prec[t.tc.byName["LPAREN"]]
-	assignLevel, hasAssign := t.pt.prec[t.tc.byName["ASSIGN"]]
+	lparenT, _ := refTypeOf(t, "(")
+	assignT, _ := refTypeOf(t, "=")
+	callLevel, hasCall := t.pt.prec[lparenT]
+	assignLevel, hasAssign := t.pt.prec[assignT]
 	if writeRune == nil || !hasCall || !hasAssign {
 		c.unres("anchors", token.NoPos, "WriteRune / levels of '(' and '=' not found")
 		return
@@ -921,42 +923,99 @@ func opens0pos[T any](a, b []T, f *ssa.Function) token.Pos {
 // ---------------------------------------------------------------------------------------------
 // reference order (R2.1)
 
-// refOrder: relative order of the subset's operators in the ECMAScript operator-precedence table
-// (ECMA-262 §13 expression grammar, lowest to highest). Only order and ties are used.
+// refOrder: ECMAScript's operator-precedence table (ECMA-262 §13 expression grammar, lowest to highest), keyed by the
+// operator's LEXEME, not by the name the library gives its token constant: an operator of JavaScript that the subset
+// gains later (`*=`, `===`, `**`, `??`, …) is judged against the same reference whatever its constant is called.
+// Only order and ties are used. One comment per tier.
 var refOrder = [][]string{
-	{"ASSIGN", "PLUS_ASSIGN", "MINUS_ASSIGN"}, // AssignmentExpression (right-assoc)
-	{"OR"},                           // LogicalORExpression
-	{"AND"},                          // LogicalANDExpression
-	{"EQ", "NOT_EQ"},                 // EqualityExpression
-	{"LT", "GT", "LTE", "GTE"},       // RelationalExpression
-	{"PLUS", "MINUS"},                // AdditiveExpression
-	{"MULTIPLY", "DIVIDE", "MODULO"}, // MultiplicativeExpression
-	{"<unary>"},                      // UnaryExpression
-	{"INCREMENT", "DECREMENT"},       // UpdateExpression (postfix)
-	{"LPAREN"},                       // CallExpression
-	{"DOT", "LBRACKET"},              // MemberExpression (same LeftHandSide tier as calls: <= accepted)
+	{"=", "+=", "-=", "*=", "/=", "%=", "**=", "<<=", ">>=", ">>>=", "&=", "|=", "^=", "&&=", "||=", "??="}, // AssignmentExpression (right-assoc)
+	{"?"},                          // ConditionalExpression
+	{"||", "??"},                   // LogicalORExpression / CoalesceExpression
+	{"&&"},                         // LogicalANDExpression
+	{"|"},                          // BitwiseORExpression
+	{"^"},                          // BitwiseXORExpression
+	{"&"},                          // BitwiseANDExpression
+	{"==", "!=", "===", "!=="},     // EqualityExpression
+	{"<", ">", "<=", ">=", "in", "instanceof"}, // RelationalExpression
+	{"<<", ">>", ">>>"},            // ShiftExpression
+	{"+", "-"},                     // AdditiveExpression
+	{"*", "/", "%"},                // MultiplicativeExpression
+	{"**"},                         // ExponentiationExpression (right-assoc)
+	{"<unary>"},                    // UnaryExpression
+	{"++", "--"},                   // UpdateExpression (postfix)
+	{"("},                          // CallExpression
+	{".", "[", "?."},               // MemberExpression (same LeftHandSide tier as calls: <= accepted)
+}
+
+// refRightAssoc: the operators of the reference that group to the right.
+var refRightAssoc = map[string]bool{"**": true}
+
+func init() {
+	for _, l := range refOrder[0] {
+		refRightAssoc[l] = true
+	}
+}
+
+// refLexemeOf: the fixed lexeme (or keyword spelling) the lexer produces for token type k, "" when it has none.
+func refLexemeOf(t *tables, k int64) string {
+	best := ""
+	for lx, ty := range t.lt.fixed {
+		if ty == k && (best == "" || lx < best) {
+			best = lx
+		}
+	}
+	if best == "" {
+		for lx, ty := range t.lt.keywords {
+			if ty == k && (best == "" || lx < best) {
+				best = lx
+			}
+		}
+	}
+	return best
+}
+
+// refRank: tier of token type k in the reference (by lexeme), ok=false when the lexeme is not an ECMAScript operator.
+func refRank(t *tables, k int64) (int, bool) {
+	lx := refLexemeOf(t, k)
+	if lx == "" {
+		return 0, false
+	}
+	for i, g := range refOrder {
+		for _, n := range g {
+			if n == lx {
+				return i, true
+			}
+		}
+	}
+	return 0, false
+}
+
+// refTypeOf: the token type whose lexeme is lx (−1, false when the lexer produces no such token).
+func refTypeOf(t *tables, lx string) (int64, bool) {
+	if k, ok := t.lt.fixed[lx]; ok {
+		return k, true
+	}
+	if k, ok := t.lt.keywords[lx]; ok {
+		return k, true
+	}
+	return -1, false
 }
 
 func ruleRefOrder(c *Ctx, t *tables) {
-	if c.extractorProblems(t, "parser") {
+	if c.extractorProblems(t, "parser", "lexemes") {
 		return
 	}
-	rank := map[string]int{}
-	for i, g := range refOrder {
-		for _, n := range g {
-			rank[n] = i
-		}
-	}
-	var toks []string
+	rankOf := map[int64]int{}
+	var toks []int64
 	for k := range t.pt.prec {
-		n := t.tc.name(k)
-		if _, ok := rank[n]; ok {
-			toks = append(toks, n)
+		if r, ok := refRank(t, k); ok {
+			rankOf[k] = r
+			toks = append(toks, k)
 		} else {
-			c.info("token "+n+" not in reference", t.pt.precPos[k], "has binding power %d; not part of the ECMAScript reference order used here", t.pt.prec[k])
+			c.info("token "+t.tc.name(k)+" not in reference", t.pt.precPos[k], "has binding power %d; its lexeme %q is not an operator of the ECMAScript reference order used here", t.pt.prec[k], refLexemeOf(t, k))
 		}
 	}
-	sort.Strings(toks)
+	sort.Slice(toks, func(i, j int) bool { return t.tc.name(toks[i]) < t.tc.name(toks[j]) })
 	sign := func(a int64) int {
 		switch {
 		case a < 0:
@@ -966,27 +1025,45 @@ func ruleRefOrder(c *Ctx, t *tables) {
 		}
 		return 0
 	}
+	callRank, memberRank := -1, -1
+	for i, g := range refOrder {
+		for _, n := range g {
+			if n == "(" {
+				callRank = i
+			}
+			if n == "." {
+				memberRank = i
+			}
+		}
+	}
 	for i := 0; i < len(toks); i++ {
 		for j := i + 1; j < len(toks); j++ {
-			a, b := toks[i], toks[j]
-			la, lb := t.pt.prec[t.tc.byName[a]], t.pt.prec[t.tc.byName[b]]
+			ka, kb := toks[i], toks[j]
+			a, b := t.tc.name(ka), t.tc.name(kb)
+			la, lb := t.pt.prec[ka], t.pt.prec[kb]
 			got := sign(la - lb)
-			want := sign(int64(rank[a] - rank[b]))
+			ra, rb := rankOf[ka], rankOf[kb]
+			want := sign(int64(ra - rb))
 			ok := got == want
 			// call vs member: same tier in ECMAScript; call <= member accepted
-			ra, rb := rank[a], rank[b]
-			if (ra == rank["LPAREN"] && rb == rank["DOT"]) || (rb == rank["LPAREN"] && ra == rank["DOT"]) {
+			if (ra == callRank && rb == memberRank) || (rb == callRank && ra == memberRank) {
 				ok = got == want || got == 0
 			}
 			key := fmt.Sprintf("order %s vs %s", a, b)
 			if ok {
-				c.ok(key, t.pt.precPos[t.tc.byName[a]], "levels %d,%d ordered as in ECMAScript", la, lb)
+				c.ok(key, t.pt.precPos[ka], "levels %d,%d ordered as in ECMAScript", la, lb)
 			} else {
-				c.bad(key, t.pt.precPos[t.tc.byName[a]], "binding powers of %s (%d) and %s (%d) are ordered differently from ECMAScript's operator precedence: expressions mixing them group differently from JavaScript", a, la, b, lb)
+				c.bad(key, t.pt.precPos[ka], "binding powers of %s (%d) and %s (%d) are ordered differently from ECMAScript's operator precedence: expressions mixing them group differently from JavaScript", a, la, b, lb)
 			}
 		}
 	}
-	// the unary level: strictly between multiplicative and postfix
+	// the unary level: strictly above every binary tier below UnaryExpression and strictly below the postfix/call/member tiers
+	unaryRank := -1
+	for i, g := range refOrder {
+		if g[0] == "<unary>" {
+			unaryRank = i
+		}
+	}
 	for k, m := range t.pt.prefix {
 		consts, _ := c.exprLevelArgs(t, m)
 		lowest := mustConst(c, "parser", "LOWEST")
@@ -994,10 +1071,18 @@ func ruleRefOrder(c *Ctx, t *tables) {
 			if u <= lowest {
 				continue
 			}
-			mul := t.pt.prec[t.tc.byName["MULTIPLY"]]
-			post := t.pt.prec[t.tc.byName["INCREMENT"]]
+			var wrong []string
+			for _, kb := range toks {
+				lv := t.pt.prec[kb]
+				switch {
+				case rankOf[kb] < unaryRank && lv >= u:
+					wrong = append(wrong, fmt.Sprintf("%s (%d) is not below it", t.tc.name(kb), lv))
+				case rankOf[kb] > unaryRank && lv <= u:
+					wrong = append(wrong, fmt.Sprintf("%s (%d) is not above it", t.tc.name(kb), lv))
+				}
+			}
 			key := fmt.Sprintf("unary level of prefix %s", t.tc.name(k))
-			c.check(mul < u && u < post, key, t.pt.entryPos[fmt.Sprintf("prefix/%d", k)], fmt.Sprintf("operand level %d lies between multiplicative %d and postfix %d", u, mul, post), fmt.Sprintf("prefix operator %s parses its operand at level %d, not strictly between multiplicative (%d) and postfix (%d)", t.tc.name(k), u, mul, post))
+			c.check(len(wrong) == 0, key, t.pt.entryPos[fmt.Sprintf("prefix/%d", k)], fmt.Sprintf("operand level %d lies above every binary operator and below postfix, call and member access", u), fmt.Sprintf("prefix operator %s parses its operand at level %d, which is not strictly between the binary operators and postfix/call/member: %s", t.tc.name(k), u, strings.Join(wrong, "; ")))
 		}
 	}
 }
